@@ -790,7 +790,7 @@ Proof.
     try (destr_eq; first [exact B | (apply Q; kh)]; fail).
   - pose proof (DB_inst t y s (conj D B)) as [D1 B1]. destruct (inst t y s) as [y' s1]. cbn [snd] in D1, B1.
     destruct (get_task t s1) as [tk|] eqn:G; cbn [c_st]; [|exact B1].
-    destruct (tk_deps tk ++ futs (extract y')); cbn [c_st]; (apply (BI_keep s1); [exact B1|]); kh.
+    destruct (futs (extract y')); cbn [c_st]; (apply (BI_keep s1); [exact B1|]); kh.
   - pose proof (BI_create t f s D B) as B1. destruct (create t f s) as [h s1]. cbn [snd c_st] in *. exact B1.
 Qed.
 
@@ -1016,7 +1016,7 @@ Proof.
       try (destr_eq; mh; fail).
     + pose proof (mild_inst t y s) as Qi. destruct (inst t y s) as [y' s1]. cbn [snd] in Qi.
       destruct (get_task t s1) as [tk|] eqn:G; cbn [c_st]; [|exact Qi].
-      destruct (tk_deps tk ++ futs (extract y')); cbn [c_st]; mh.
+      destruct (futs (extract y')); cbn [c_st]; mh.
     + pose proof (mild_create t f s) as Qi. destruct (create t f s) as [h s1]. cbn [snd c_st] in *. exact Qi.
 Qed.
 
